@@ -82,9 +82,10 @@ def evaluate(text, run, ticks=TICKS, files=None):
     from vp.flo import dump
     logdir = None
     try:
-        if metagen.LOGDIR in text:
+        if metagen.LOGDIR in text or any(metagen.LOGDIR in t for t in (files or {}).values()):
             logdir = tempfile.mkdtemp(prefix="vplog", dir=_TMPROOT)
             text = text.replace(metagen.LOGDIR, logdir)
+            files = dict((k, t.replace(metagen.LOGDIR, logdir)) for k, t in (files or {}).items()) or None
         with env.cpu_watchdog(60):
             b = build_text(text, files=files)
             res = {"outcome": "ok" if (b.ok and b.exc is None) else b.outcome, "dump": None, "run": None,
